@@ -180,6 +180,22 @@ func GenProject(t *rapid.T, pf Profile) *Project {
 		n := rapid.IntRange(1, 4).Draw(t, "nSchemes")
 		for i := 0; i < n; i++ {
 			sc := rapid.SampledFrom(schemeCatalogue).Draw(t, "schemeKind")
+			if sc.Type == "oauth2" && rapid.Bool().Draw(t, "mixFlows") {
+				// any non-empty subset of the four flows, each with the URLs the specification requires of it
+				scopes := map[string]any{"read": "r", "write": "w", "admin": "a", "items:read": "ir"}
+				all := map[string]map[string]any{
+					"implicit":          {"authorizationUrl": "https://example.com/auth", "scopes": scopes},
+					"password":          {"tokenUrl": "https://example.com/token", "scopes": scopes},
+					"clientCredentials": {"tokenUrl": "https://example.com/token", "scopes": scopes},
+					"authorizationCode": {"authorizationUrl": "https://example.com/auth", "tokenUrl": "https://example.com/token", "scopes": scopes},
+				}
+				pick := rapid.SliceOfNDistinct(rapid.SampledFrom([]string{"implicit", "password", "clientCredentials", "authorizationCode"}), 1, 4, func(s string) string { return s }).Draw(t, "flows")
+				sc.Flows = map[string]any{}
+				for _, f := range pick {
+					sc.Flows[f] = all[f]
+				}
+				sc.Name, sc.Description = "oauthMixed", "oauth2 with "+strings.Join(pick, "+")
+			}
 			sc.Name = fmt.Sprintf("%s%d", sc.Name, i)
 			cfg.Schemes = append(cfg.Schemes, sc)
 			secNames = append(secNames, sc.Name)
